@@ -16,7 +16,7 @@ THEOREMS = [
 ]
 RULE = ("finite schedules with 0..400 actions at the same due time (counts aimed at the spin threshold: 99..103, 150, 202..205, 400), "
         "self-rescheduling chains at the current time of depth <=150, mixed with other due times, cancellations, repeated start() "
-        "(restart after drain) and advance_to, on TestScheduler, VirtualTimeScheduler and HistoricalScheduler (datetime clock), every run "
+        "(restart after drain) and advance_to, drain-and-restart rounds (queue emptied by start / advance_to / advance_by, more scheduled, run again), on TestScheduler, VirtualTimeScheduler and HistoricalScheduler (datetime clock), every run "
         "under a watchdog; plus the C28 random scripts. Compared with the Lean model (log, clocks, outcomes). "
         "non-trivial = at least two actions share a due time and at least one action ran")
 ASSUMPTIONS = ["single-threaded use of the scheduler", "integer times",
@@ -91,6 +91,39 @@ def gen_chain(rng, kind):
     return base(kind, c0, ops)
 
 
+def gen_drain_restart(rng, kind=None):
+    """2..4 rounds: schedule some actions, run until the queue is EMPTY — by start(), by advance_to(T) or advance_by(d) with the
+    target at/after the last due time — then schedule more and run again, by any of the three"""
+    kind = kind or rng.choice(["test", "vts", "hist"])
+    unit = 500 if kind == "hist" else 1
+    c0 = unit * rng.choice([0, 0, 9])
+    clock = c0
+    ops, nid = [], 1
+    for _ in range(rng.choice([2, 2, 3, 4])):
+        last = clock
+        for _ in range(rng.choice([1, 2, 5, 30])):
+            mode = rng.choice(["imm", "rel", "abs"])
+            t = 0 if mode == "imm" else unit * rng.randrange(0, 6) if mode == "rel" else clock + unit * rng.randrange(0, 6)
+            due = clock if mode == "imm" else clock + t if mode == "rel" else t
+            node = noop(nid) if rng.random() < 0.7 else chain(nid, rng.choice([1, 3]), "rel", unit * rng.randrange(0, 3))
+            nid = max(vc.action_ids(node)) + 1
+            last = max(last, due + 6 * unit)
+            ops.append(["sched", False, mode, t, node])
+        how = rng.choice(["start", "advance_to", "advance_to", "advance_by", "advance_by"])
+        if how == "start":
+            ops.append(["start"])
+            clock = last   # an upper bound is enough: later absolute times are taken from it
+        elif how == "advance_to":
+            T = last + unit * rng.choice([0, 1, 5])
+            ops.append(["advance_to", T])
+            clock = T
+        else:
+            d = last - clock + unit * rng.choice([1, 2])
+            ops.append(["advance_by", d])
+            clock += d
+    return base(kind, c0, ops)
+
+
 def cases(rng, tier):
     kinds = ["test", "vts", "hist"]
     # the confirmed defect (DESIGN §6 #1), always first: 102 same-time actions on a datetime clock
@@ -106,6 +139,8 @@ def cases(rng, tier):
         yield C28.gen_script(rng, raise_p=0.0)
     for _ in range(fw.tier_scale(tier, 60, 600)):
         yield C28.gen_multi_start(rng)
+    for _ in range(fw.tier_scale(tier, 300, 3000)):
+        yield gen_drain_restart(rng)
 
 
 model_request = vc.model_request
@@ -120,6 +155,7 @@ def oracle(case, out):
     pending = {}
     cancelled = set()
     cur = None
+    must_be_enabled = False   # may the scheduler legitimately be enabled between calls? (only after an exception escaped)
     for ev in out["events"]:
         k = ev[0]
         if k == "op":
@@ -141,6 +177,19 @@ def oracle(case, out):
                 cur["ran"] += 1
         elif k == "opend":
             res = ev[2]
+            # restart clause: a run that RETURNED NORMALLY leaves the scheduler startable again, however its loop ended
+            # (queue drained, next item beyond the target, stop() from an action)
+            if res == "ok" and not cur["enabled"] and cur["name"] in ("start", "advance_to", "advance_by") and ev[4]:
+                return (f"{cur['name']}({'' if cur['arg'] is None else cur['arg']}) returned normally but left the scheduler enabled: "
+                        f"every later start()/advance_to() returns at once without running anything")
+            if cur["enabled"] and cur["name"] in ("start", "advance_to", "advance_by") and not must_be_enabled:
+                return (f"{cur['name']} found the scheduler still enabled although the previous run returned normally "
+                        f"(queue drained): it ran nothing")
+            if cur["name"] in ("start", "advance_to", "advance_by"):
+                # as written, only an exception escaping from an action leaves _is_enabled set
+                must_be_enabled = (res != "ok" and cur["ran"] > 0) or (must_be_enabled and cur["enabled"])
+            elif cur["name"] == "stop":
+                must_be_enabled = False
             if res == "ok" and not cur["enabled"] and not cur["stopped"]:
                 if cur["name"] == "start":
                     left = sorted(i for i in pending if i not in cancelled)
